@@ -364,8 +364,9 @@ def step (E : Engine) (o : Oracles) (s : St) : Op → St × Res
   | .commit => (commit o s, .done)
   | .reopen =>
       let s1 := dropCommit o s
-      -- open: the embedded segments are materialised in a new temporary directory; the engine matches the file
-      (if s1.lex then { s1 with tantivyDirty := false, workDir := o.tmp s1.kTmp, kTmp := s1.kTmp + 1 } else s1, .done)
+      -- open (`init_tantivy`): embedded segments are materialised in a new temporary directory and trusted; a file
+      -- without any embedded snapshot makes it report a rebuild, which leaves `tantivy_dirty` set
+      (if s1.lex then { s1 with tantivyDirty := !s1.lexWritten, workDir := o.tmp s1.kTmp, kTmp := s1.kTmp + 1 } else s1, .done)
   | .search q => (s, .hits (E s.segs q))
 
 def runFrom (E : Engine) (o : Oracles) (s : St) : List Op → St × List Res
@@ -526,6 +527,7 @@ def causes (s : St) : List String :=
   (if s.wal.any (fun r => match r with | .tombstone .. => true | _ => false) then ["clock:wal-tombstone-timestamp"] else [])
   ++ (if s.cards.any (·.auto) then ["clock:card-created-at"] else [])
   ++ (if lexTainted s then ["uuid:tantivy-segment-names", "sched:tantivy-segment-layout"] else [])
+  ++ (if s.wal.any (fun r => match r with | .lexBatch ns => !ns.isEmpty | _ => false) then ["uuid:wal-lex-batch-names"] else [])
   ++ (if !s.cards.isEmpty && decide (1 < (slotKeys s.cards).length) then ["hashSeed:memories-slot-index-order"] else [])
   ++ (if decide (1 < (enrichKeys s.enrich).length) then ["hashSeed:memories-enrichment-manifest-order"] else [])
 
